@@ -354,7 +354,22 @@ def rule_rte_window(col, facts):
                 e = rvalue_expr(f, st[2], 0)
                 if e[3] == ("un", "Not", ("k", 1)):
                     tg.add(i)
-    col.check(R, "anchor:clear-low-bit", len(tg) == 1, "`mantissa &= !1` not found exactly once (%d)" % len(tg), f.loc())
+    if not tg:
+        # other spellings of "clear the (set) low bit" (`mantissa -= 1`, `^= 1`): the tie branch is the block that
+        # is control-dependent on the test `mantissa & 3 == 1` and assigns
+        for i, b in enumerate(f.blocks):
+            if not f.live(i) or not any(st[0] == "=" and st[2][0] == "bin" for st in b["s"]):
+                continue
+            for _d, c, p in path_conditions(f, i):
+                c = strip_casts(c)
+                if c[0] == "bin" and c[1] == "Eq" and p is True and strip_casts(c[3]) == ("k", 1):
+                    l = strip_casts(c[2])
+                    if l[0] == "bin" and l[1] == "BitAnd" and strip_casts(l[3]) == ("k", 3):
+                        tg.add(i)
+        if len(tg) > 1:
+            # keep the outermost such block (the others are overflow-check continuations of it)
+            tg = {min(tg)}
+    col.check(R, "anchor:clear-low-bit", len(tg) == 1, "the tie branch (clearing the low bit under `mantissa & 3 == 1`) was not found exactly once (%d)" % len(tg), f.loc())
     if len(tg) != 1:
         return
     def which(e):
@@ -1348,9 +1363,29 @@ def rule_denormal_shift(col, facts, which=("lemire", "binary")):
                     conds = path_conditions(f, i)
                     for _d, c, p in conds[-1:]:
                         c = strip_casts(c)
-                        if c[0] == "bin" and c[1] in ("Ge", "Gt") and p is True and strip_casts(c[3])[0] == "k" and strip_casts(c[2])[0] == "bin" and strip_casts(c[2])[1] == "Add":
-                            k = strip_casts(c[3])[1]
-                            out.append((k if c[1] == "Ge" else k + 1, st[3], strip_casts(c[2])))
+                        if not (c[0] == "bin" and c[1] in ("Ge", "Gt", "Le", "Lt", "Eq", "Ne") and isinstance(p, bool)):
+                            continue
+                        # read the guard as a predicate of power2 (its only non-constant leaf), whatever its
+                        # spelling (`-power2 + 1 >= 64`, `power2 <= -63`, ...), and find the smallest shift
+                        # s = -power2 + 1 for which the literal zero is returned
+                        def _ev(x, v):
+                            x = strip_casts(simplify_proj(x))
+                            if x[0] == "k" and isinstance(x[1], int):
+                                return x[1]
+                            if x[0] == "un" and x[1] == "Neg":
+                                return -_ev(x[2], v)
+                            if x[0] == "bin" and x[1] in ("Add", "Sub"):
+                                a_, b_ = _ev(x[2], v), _ev(x[3], v)
+                                return a_ + b_ if x[1] == "Add" else a_ - b_
+                            return v
+                        def _holds(s_):
+                            a_, b_ = _ev(c[2], 1 - s_), _ev(c[3], 1 - s_)
+                            r_ = {"Gt": a_ > b_, "Ge": a_ >= b_, "Eq": a_ == b_, "Lt": a_ < b_, "Le": a_ <= b_, "Ne": a_ != b_}[c[1]]
+                            return r_ == p
+                        if not _holds(4000) or _holds(1):
+                            continue            # not a "large shift -> zero" guard
+                        k = min(s_ for s_ in range(1, 200) if _holds(s_))
+                        out.append((k, st[3], strip_casts(c[2])))
         return out
     if "lemire" in which and not facts.config.startswith("compact"):
         f = facts.fn(PF + "lemire::compute_float")
